@@ -51,6 +51,16 @@ func runC09(r *drv.Run) drv.Spec {
 		nValid, nFiles, mutPer = 4000, 100000, 8
 	}
 	items := hostileCorpus(r, "c09", nValid, nFiles, mutPer, 150<<10)
+	// LZMA with a tiny dictionary on long periodic data (the ring buffer's seams)
+	nsd := 4
+	if r.Thorough() {
+		nsd = 40
+	}
+	for i := 0; i < nsd; i++ {
+		if sd, err := corpus.SmallDictItems(vk.CaseRNG(r.Seed, 0, "c09smalldict", int64(i))); err == nil {
+			items = append(items, sd...)
+		}
+	}
 	if err := corpus.WriteItems(r.Scratch+"/c09", items, "v"); err != nil {
 		drv.Fatal("%v", err)
 	}
@@ -78,9 +88,21 @@ func runC09(r *drv.Run) drv.Spec {
 		case isToken(it.Kind):
 			base += " tcap=64"
 		default:
-			base += " dtotal=1200000" + wbFor(it.Kind)
+			base += " dtotal=2000000" + wbFor(it.Kind)
 			if rr.Intn(3) == 0 {
 				base += " splits=" + randSplits(rr, len(it.Enc), 5)
+			}
+			// the same capacity plan in every variant: a decode in several calls
+			// keeps its history in the work buffer, whose pre-fill differs per variant
+			if rr.Intn(2) == 0 || it.PClass == "periodic" {
+				base += " dcaps=" + randSplits(rr, 9000, 60)
+				if it.PClass == "periodic" {
+					// a client with a small fixed destination buffer that it drains
+					// after every call (as example/zcat does): the decoder's history
+					// then lives in the work buffer only, in pieces well below the
+					// 4 KiB dictionary
+					base = base[:strings.LastIndex(base, " dcaps=")] + fmt.Sprintf(" mode=compact sbuf=4096 dbuf=%d", 300+rr.Intn(1200))
+				}
 			}
 		}
 		for vi, v := range c09variants {
